@@ -7,6 +7,10 @@ func adjustConfigFor(cfg *Config, prop string, seed uint64) {
 	switch prop {
 	case "C12":
 		cfg.Suffix = true
+	case "C08":
+		cfg.WInject = 30
+		cfg.WStale = 4
+		cfg.MaxSteps = 900
 	case "C07":
 		cfg.WCrash, cfg.WRestart = 4, 10
 		if cfg.MaxCrashes < 3 {
